@@ -212,7 +212,7 @@ func TestC32Traces(t *testing.T) {
 	rapid.Check(t, func(rt *rapid.T) {
 		spec := memsys.GenAssembly(rt, memsys.GenOpts{Bottoms: []string{"ideal", "banked", "dram"}})
 		c := c32Case{Spec: spec}
-		if rapid.IntRange(0, 2).Draw(rt, "reset") == 0 {
+		if rapid.IntRange(0, 1).Draw(rt, "reset") == 0 {
 			c.ResetAt = rapid.IntRange(1, 15).Draw(rt, "resetAt")
 		}
 		run(rt, c)
